@@ -5,10 +5,62 @@ use crate::engine::Tier;
 use crate::gen::{self, DocOpts};
 use proptest::prelude::*;
 
+/// Attributes an author may put on the root element (each subset matters to root synthesis).
+pub fn root_attrs() -> BoxedStrategy<String> {
+    (any::<u16>(), gen::nice_pos(300), gen::nice_pos(300))
+        .prop_map(|(m, w, h)| {
+            let mut s = String::new();
+            let unit = ["", "mm", "cm", "in", "px", "%", "em"][(m >> 12) as usize % 7];
+            if m & 1 != 0 {
+                s.push_str(" version=\"1.1\"");
+            }
+            if m & 2 != 0 {
+                s.push_str(&format!(" width=\"{}{unit}\"", crate::run::num(w)));
+            }
+            if m & 4 != 0 {
+                s.push_str(&format!(" height=\"{}{unit}\"", crate::run::num(h)));
+            }
+            if m & 8 != 0 {
+                s.push_str(&format!(" viewBox=\"0 0 {} {}\"", crate::run::num(w), crate::run::num(h)));
+            }
+            if m & 16 != 0 {
+                s.push_str(" id=\"root\"");
+            }
+            if m & 32 != 0 {
+                s.push_str(" class=\"diagram d-text-small\"");
+            }
+            if m & 64 != 0 {
+                s.push_str(" style=\"background: #eee\"");
+            }
+            if m & 128 != 0 {
+                s.push_str(" xmlns:xlink=\"http://www.w3.org/1999/xlink\"");
+            }
+            if m & 256 != 0 {
+                s.push_str(" data-note=\"a &amp; b\"");
+            }
+            if m & 512 != 0 {
+                s.push_str(" preserveAspectRatio=\"xMidYMid meet\"");
+            }
+            s
+        })
+        .boxed()
+}
+
+/// Add author attributes to the (non-namespaced) root <svg> of a document.
+pub fn with_root_attrs(doc: String, attrs: &str) -> String {
+    if let Some(rest) = doc.strip_prefix("<svg>") {
+        format!("<svg{attrs}>{rest}")
+    } else if let Some(rest) = doc.strip_prefix("<svg/>") {
+        format!("<svg{attrs}/>{rest}")
+    } else {
+        doc
+    }
+}
+
 pub fn svgdx_docs(_t: Tier) -> BoxedStrategy<String> {
-    prop_oneof![
+    let base = prop_oneof![
         2 => crate::props::c02::hostile_rooted_doc(),
         2 => gen::docgen(DocOpts::all(), 10, gen::benign_text().boxed()),
-    ]
-    .boxed()
+    ];
+    (base, root_attrs(), prop::bool::weighted(0.6)).prop_map(|(d, a, on)| if on { with_root_attrs(d, &a) } else { d }).boxed()
 }
